@@ -1538,6 +1538,60 @@ def check_merge_cursor(ck, f, inst):
                   "%s skips entries up to the column of %s, whose traversal restarts in every iteration of `%s`, but %s is positioned outside that loop (line %s): "
                   "entries it has passed for an earlier traversal are never updated by a later one (patterns with triangles, ILU(p>0))" % (
                       nm, tn, render(bad[1]), nm, view.byid[bad[0]].get("l")), f.file, view.byid[(bad[0] if bad else ci[0])].get("l"))
+    # row end: a cursor positioned at row_ptr_X[r] is bounded by row_ptr_X[r+1] in every test `cursor < bound`
+    def row_of(n, depth=0):
+        """(row pointer field, (variable, offset)) if n == row_ptr_X[var + offset], through named constants and through
+        another index variable the cursor is started from (`pl = j` with `j = rptr_l[i]`)"""
+        v = view.value(n)
+        el = element(view, v)
+        if el and el[0].startswith("_row_ptr_"):
+            af = norm_c08.affine(view, el[1])
+            return (el[0], af) if af is not None and af[0] is not None else None
+        if v.get("k") == "Ref" and v.get("dk") == "local" and depth < 3:
+            sites = init_sites(v["d"])
+            vals = set()
+            for sid in sites:
+                st = view.byid.get(sid) or {}
+                src = st.get("rhs") if st.get("k") == "Assign" else next((x.get("init") for x in st.get("vars", []) if x.get("d") == v["d"]), None)
+                vals.add(row_of(src, depth + 1) if src is not None else None)
+            if len(vals) == 1:
+                return vals.pop()
+        return None
+    for d, (nm, arr) in sorted(cursors.items(), key=lambda kv: kv[1][0]):
+        starts = set()
+        for sid in init_sites(d):
+            st = view.byid.get(sid) or {}
+            src = st.get("rhs") if st.get("k") == "Assign" else next((x.get("init") for x in st.get("vars", []) if x.get("d") == d), None)
+            starts.add(row_of(src) if src is not None else None)
+        bounds = []
+        for n in walk(f.body):
+            if n.get("k") == "Bin" and n.get("op") in ("<", "<=", ">", ">=", "!="):
+                for x, y in ((n["lhs"], n["rhs"]), (n["rhs"], n["lhs"])):
+                    if strip(x).get("k") == "Ref" and strip(x).get("d") == d and not (strip(y).get("k") == "Ref" and strip(y).get("d") in cursors):
+                        bounds.append((n, y))
+        key = "%s/%s: row end" % (inst, nm)
+        if not bounds:
+            continue
+        if None in starts or len(starts) != 1:
+            ck.incomplete(rule, "%s: the start position of %s is not row_ptr[row] of one row pointer array" % (key, nm))
+            continue
+        fld, (rv, ro) = next(iter(starts))
+        bad = unknown = None
+        for n, y in bounds:
+            b = row_of(y)
+            if b is None:
+                unknown = (n, y)
+            elif b != (fld, (rv, ro + 1)):
+                bad = (n, y, b)
+        if bad is None and unknown is not None:
+            ck.incomplete(rule, "%s: bound `%s` (line %s) is not an element of a row pointer array" % (key, render(unknown[1]), unknown[0].get("l")))
+            continue
+        ck.ob(rule, key, bad is None,
+              "%s starts at %s[row] and every test bounds it by %s[row+1]" % (nm, fld[1:], fld[1:]) if bad is None else
+              "%s starts at %s[row] but `%s` (line %s) bounds it by %s[row%+d]: the traversal %s" % (
+                  nm, fld[1:], render(bad[0]), bad[0].get("l"), bad[2][0][1:], bad[2][1][1] - ro,
+                  "stops at once (empty row segment)" if bad[2][0] == fld and bad[2][1][1] <= ro else "runs over entries of another row / factor"),
+              f.file, (bad[0] if bad else bounds[0][0]).get("l"))
     for d, (nm, arr) in sorted(cursors.items(), key=lambda kv: kv[1][0]):
         for w in view.writes.get(d, []):
             if not pcmodel.is_step(w):
@@ -2205,7 +2259,7 @@ def run(tier):
     ck.rule("E8.refresh-covers", "ILU copy_data_csr / copy_data_bcsr (the fresh value write of E8.numeric-refresh) assigns every slot of the factor arrays on every path of the row loop: _data_l[j] and _data_u[j] for every j of the factor's row segment [row_ptr[i], row_ptr[i+1]) in both the 'found in A' and the 'not in A' branch, _data_d[i] unconditionally; breaks for fill level p >= 1 on the second init_numeric (stale fill-in)", 6)
     ck.rule("E6.ilu-factor-form", "in-place (I+L)(D+U) factorisation, scalar and blocked: every store has one of the forms L_ij <- L_ij * D_jj^-1 (right multiplication), X <- X - L_ij * U_jk (X in L, D, U; L left of U), D_ii <- D_ii^-1, as (non-commutative, for blocks) normal forms; breaks for every block matrix whose blocks do not commute", 10)
     ck.rule("E4.ilu-level-fold", "ILU(p) level of fill lev(i,k) = min_j lev(i,j) + lev(j,k) + 1: _insert folds a duplicate insertion with MIN on every path where the entry exists (neither keep-first nor overwrite) and stores (col, level) for a new entry; factorize_symbolic passes lev(L_ij) + lev(U_jk) + 1 of the two merged entries with the column of the same U entry, inserts iff level <= p, and starts the pattern of A at level 0; breaks for p >= 2 on patterns where an entry is reached through two paths of different level (pattern too small: LU does not match A on the level-p pattern)", 7)
-    ck.rule("E3.merge-cursor", "numeric ILU factorisation (scalar and blocked): every cursor into a sorted column-index row (k over U_j, pl over L_i, pu over U_i) advances either as the increment of a loop over / skipping entries, or in straight code only under a successful match col_idx[cursor] == wanted column; breaks for structurally unsymmetric patterns (U_j has an entry right of column i but none at i: that entry is skipped and its Schur update lost); a cursor that skips up to a target taken from another traversal is (re)positioned inside the loop in which that traversal restarts (breaks for patterns with triangles / ILU(p>0))", 16)
+    ck.rule("E3.merge-cursor", "numeric ILU factorisation (scalar and blocked): every cursor into a sorted column-index row (k over U_j, pl over L_i, pu over U_i) advances either as the increment of a loop over / skipping entries, or in straight code only under a successful match col_idx[cursor] == wanted column; breaks for structurally unsymmetric patterns (U_j has an entry right of column i but none at i: that entry is skipped and its Schur update lost); a cursor that skips up to a target taken from another traversal is (re)positioned inside the loop in which that traversal restarts (breaks for patterns with triangles / ILU(p>0)); a cursor positioned at row_ptr_X[r] is bounded by row_ptr_X[r+1] of the same row pointer array in every test (a hoisted row end taken from the wrong row / factor silently empties or overruns the row segment)", 24)
     ck.rule("E8.partial-fill-reinit", "a vector member that apply() reads and that a function reached from init_numeric() fills only partially (a pointer into it is handed to a gather routine all of whose stores are control-dependent on a match test) is re-initialised over its whole extent (memset / std::fill / assign / full loop over size()) on every path before, in that function or in init_numeric before the call; breaks on every second init_numeric() on one object (Vanka local matrices: the zero blocks hold the previous inverse)", 4)
     ck.rule("E8.scratch-reset", "AmaVanka::init_numeric: the local-matrix work array, which is shared by all macros and which the gather routine fills at the structural non-zeros only, is in its zeroed state at every gather: zero-initialised where it is declared and re-zeroed on every path from any other write to the next gather — including the paths that leave the macro loop body early (`continue`); breaks with skip_singular for every macro that follows a singular one and whose local matrix has structural zeros (assembled from the inf/NaN left by the failed inversion)", 2)
     ck.rule("E8.symbolic-structure-only", "init_symbolic() (transitively) does not read matrix values (val, extract_diag, apply)", 11)
